@@ -881,6 +881,8 @@ class C20:
         """Every transaction the cache dropped sits in the same block as the after_txid transaction or as a
         transaction it did serve: the cache's within-block order (list position, not block index) cut it off."""
         tx = self.chain.txs
+        if ids_b and ids_b[-1] in ids_a:
+            ids_a = ids_a[:ids_a.index(ids_b[-1]) + 1]     # what follows the last served transaction is merely not served
         missing = [i for i in ids_a if i not in ids_b]
         if not missing or any(i not in tx for i in ids_a + ids_b) or set(ids_b) - set(ids_a):
             return False
